@@ -11,6 +11,7 @@ import (
 	"time"
 
 	"github.com/q191201771/lal/pkg/gb28181"
+	"github.com/q191201771/lal/pkg/hls"
 	"github.com/q191201771/lal/pkg/rtmp"
 	"github.com/q191201771/lal/pkg/rtsp"
 	"github.com/q191201771/naza/pkg/defertaskthread"
@@ -322,4 +323,11 @@ func (sm *ServerManager) verifDeferGo(deferMs int, task defertaskthread.TaskFn, 
 		return
 	}
 	defertaskthread.Go(deferMs, task, param...)
+}
+
+// VerifHlsSweep runs the HLS handler's one-second sweep of expired sub-sessions once.
+func VerifHlsSweep(sm *ServerManager) {
+	if sm.hlsServerHandler != nil {
+		hls.VerifSweep(sm.hlsServerHandler)
+	}
 }
